@@ -202,8 +202,9 @@ mtbl_reader_init_fd(int fd, const struct mtbl_reader_options *opt)
 		}
 	}
 	/* The index block must fit between its own header and the metadata block. */
-	if (index_len > r->len_data - MTBL_METADATA_SIZE - r->m.index_block_offset
-			- index_len_len - sizeof(uint32_t)) {
+	uint64_t index_room = r->len_data - MTBL_METADATA_SIZE - r->m.index_block_offset;
+	if (index_len_len + sizeof(uint32_t) > index_room ||
+	    index_len > index_room - index_len_len - sizeof(uint32_t)) {
 		mtbl_reader_destroy(&r);
 		return (NULL);
 	}
